@@ -2,7 +2,7 @@
 import re
 
 import bv
-from interp import Agg, Enum, Int, Opaque, Ref, SymEnum, UNIT, bool_int
+from interp import Agg, Enum, Int, Opaque, Ref, SymEnum, UNIT, bool_int, unwrap_ref
 
 OK, ERR = 0, 1          # Result variants
 NONE, SOME = 0, 1       # Option variants
@@ -476,6 +476,25 @@ def m_partial_ne(ip, st, fr, t, args):
     return ("tailcall", key, list(args), lambda s, r: Int((bv.M.NOT(r.bits[0]),)) if isinstance(r, Int) else Opaque("ne"))
 
 
+def m_slice_get(ip, st, fr, t, args):
+    """<[T]>::get(i) on an array of known length: Some(&a[i]) for i < len (one outcome per feasible element), None otherwise"""
+    a = args[0]
+    if isinstance(a, Agg) and unwrap_ref(a) is not None:
+        a = unwrap_ref(a)
+    if not isinstance(a, Ref) or not isinstance(args[1], Int):
+        return None
+    arr = ip.read_loc(st, a.root, a.path)
+    if not isinstance(arr, Agg) or len(arr.fields) > 64:
+        return None
+    i = args[1].bits
+    n = len(arr.fields)
+    outs = []
+    for k in range(n):
+        outs.append((bv.eq(i, bv.const(k, len(i))), Enum(SOME, [Ref(a.root, a.path + (k,))])))
+    outs.append((bv.ule(bv.const(n, len(i)), i), Enum(NONE, [])))
+    return outs
+
+
 def is_range_index(path, full):
     return (path.endswith("::index") or path.endswith("::index_mut")) and ("ops::Range" in full) and ("[" in full or "Vec<" in full)
 
@@ -521,6 +540,7 @@ def standard_models():
         (is_int_convert, m_int_convert),
         (is_range_index, m_range_index),
         (is_combinator, m_combinator),
+        (lambda p, f: p in ("core::slice::<impl [T]>::get", "std::slice::<impl [T]>::get") and "::get::<usize>" in (f or ""), m_slice_get),
         (lambda p, f: p in ("std::cmp::PartialEq::ne", "core::cmp::PartialEq::ne"), m_partial_ne),
         (lambda p, f: p in ("std::ops::RangeInclusive::<Idx>::new", "core::ops::RangeInclusive::<Idx>::new"), m_rangeincl_new),
         (lambda p, f: p in ("std::ops::RangeInclusive::<Idx>::contains", "core::ops::RangeInclusive::<Idx>::contains", "std::ops::Range::<Idx>::contains", "core::ops::Range::<Idx>::contains"), m_range_contains),
